@@ -56,6 +56,7 @@ void sym_inputs(void)
 #ifdef REPLAY
 #include "replay_inputs.inc"
 #else
+  SYM_FEED();
   SYM(in_idle); SYM(in_has_entry); SYM(in_dt); SYM(in_recent); SYM(in_birth); SYM(in_lifetime); SYM(in_retry_val);
   SYM(in_mpos); SYM(in_getinfo_ok); SYM(in_open_fail); SYM(in_del_avail); SYM(in_exitasap); SYM(in_job_free);
   SYM(in_numtodo); SYM_ARR(stale_dying); SYM_ARR(stale_hiteof); SYM_ARR(stale_numtodo); SYM_ARR(stale_retry); SYM_ARR(rec); SYM(reclen); SYM(in_read_err);
